@@ -513,6 +513,7 @@ func ruleSerialDrain(c *core.Ctx, rule string, fn *ssa.Function) {
 	c.Pass(rule, key+"/one-goroutine", gos[0].Pos(), "one goroutine per mailbox")
 	bad := ""
 	nRecv := 0
+	var handlings []ssa.Instruction
 	var walk func(f *ssa.Function, depth int)
 	walk = func(f *ssa.Function, depth int) {
 		for _, call := range core.Calls(f) {
@@ -538,6 +539,9 @@ func ruleSerialDrain(c *core.Ctx, rule string, fn *ssa.Function) {
 			}
 			if isHandling {
 				nRecv++
+				if f == g {
+					handlings = append(handlings, call.(ssa.Instruction))
+				}
 				if _, plain := call.(*ssa.Call); !plain {
 					bad = "the Receiver is not invoked by a plain call"
 				}
@@ -553,6 +557,25 @@ func ruleSerialDrain(c *core.Ctx, rule string, fn *ssa.Function) {
 		}
 	}
 	walk(g, 0)
+	// each mail is handed over once: after the Receiver was invoked, it is not
+	// invoked again before the next mail is taken from the queue
+	takesMail := func(x ssa.Instruction) bool {
+		switch y := x.(type) {
+		case *ssa.UnOp:
+			return y.Op == token.ARROW
+		case *ssa.Select, *ssa.Next:
+			return true
+		}
+		return false
+	}
+	for _, h1 := range handlings {
+		r := core.ReachFrom(core.After(h1), takesMail, nil)
+		for _, h2 := range handlings {
+			if r.Has(h2) && bad == "" {
+				bad = "after the Receiver was invoked for a mail it can be invoked again (at " + c.Pos(h2.Pos()) + ") before the next mail is taken from the queue: a method whose answer could not be written, or that returned an error, runs a second time for one call"
+			}
+		}
+	}
 	if nRecv == 0 && bad == "" {
 		bad = "the mailbox goroutine never hands a mail to the Receiver"
 	}
